@@ -183,10 +183,11 @@ class LogixDriver(CIPDriver):
             self._micro800
             and self._cfg["cip_path"]
             and isinstance(self._cfg["cip_path"][-1], PortSegment)
+            and _is_backplane(self._cfg["cip_path"][-1])
         ):
-            self._cfg["cip_path"].pop(
-                -1
-            )  # strip off backplane/0 segment, not used for these processors
+            # strip off backplane/0 segment, not used for these processors (a backplane segment only: the next open()
+            # of this driver must not take another hop off the route)
+            self._cfg["cip_path"].pop(-1)
 
         if init_tags:
             self.get_tag_list(program="*" if init_program_tags else None)
@@ -1497,6 +1498,13 @@ def _parse_structure_makeup_attributes(response):
 
     except Exception as err:
         raise ResponseError("failed to parse structure attributes") from err
+
+
+def _is_backplane(segment: PortSegment) -> bool:
+    port = segment.port
+    if isinstance(port, str):
+        port = PortSegment.port_segments.get(port.lower(), port)
+    return port == PortSegment.port_segments["backplane"]
 
 
 def encode_value(parsed_tag: dict) -> bytes:
